@@ -108,8 +108,8 @@ type SimConn struct {
 
 // connState outlives the conn: it is what the runtime's finalizer would act on.
 type connState struct {
-	fd     int
-	closed bool
+	fd        int
+	closed    bool
 	inControl int // RawConn.Control callbacks running: each holds a reference to the descriptor
 }
 
@@ -121,7 +121,12 @@ type connEntry struct {
 var registry []connEntry
 
 // ResetRegistry forgets every conn of previous runs.
-func ResetRegistry() { registry = nil }
+func ResetRegistry() { registry = nil; EOFWithData = false }
+
+// EOFWithData makes the stub conn behave at the end of the stream like tls.Conn (which sonic's websocket
+// client adapts for wss://) rather than like *net.TCPConn: when the end of the stream is already known, the
+// Read that returns the last bytes returns io.EOF together with them - as io.Reader allows. Set per run.
+var EOFWithData bool
 
 // CollectGarbage runs the collector and then does what the runtime's
 // finalizer does for every conn that became unreachable without having been
@@ -255,6 +260,11 @@ func (c *SimConn) Read(p []byte) (int, error) {
 			return 0, c.opErr("read", os.NewSyscallError("read", e))
 		case n == 0:
 			return 0, io.EOF
+		}
+		if EOFWithData {
+			if end := k.EndOf(c.fd); end != nil && end.FinReceived() && end.RecvQueued() == 0 && !end.ActorReset() {
+				return n, io.EOF
+			}
 		}
 		return n, nil
 	}
